@@ -30,6 +30,7 @@ import (
 	"github.com/AdguardTeam/AdGuardHome/internal/dhcpsvc"
 	"github.com/AdguardTeam/AdGuardHome/verifsim/env"
 	"github.com/AdguardTeam/AdGuardHome/verifsim/kernel"
+	"github.com/AdguardTeam/AdGuardHome/verifsim/sched"
 	"github.com/AdguardTeam/golibs/log"
 	"github.com/insomniacslk/dhcp/dhcpv4"
 	"pgregory.net/rapid"
@@ -45,7 +46,8 @@ func init() {
 // Op is one generated operation.
 type Op struct {
 	// K is one of discover request decline release sadd supd srm advance restart
-	// setconf.
+	// setconf par; inside a par also reset leases status hostbyip ipbyhost
+	// macbyip (see par.go).
 	K string `json:"k"`
 	// M is the index of the client (MAC) the message comes from or the static
 	// lease is for.
@@ -82,6 +84,12 @@ type Op struct {
 	Lo int    `json:"lo,omitempty"`
 	N  int    `json:"n,omitempty"`
 	Ls int    `json:"ls,omitempty"`
+	// A par op (the concurrent phase): the operations of each task run in
+	// their order, the tasks overlap, interleaved at lock boundaries by the
+	// cooperative scheduler seeded with Seed (Pct = preemption probability).
+	Seed  uint64 `json:"seed,omitempty"`
+	Pct   int    `json:"pct,omitempty"`
+	Tasks [][]Op `json:"tasks,omitempty"`
 }
 
 // Scenario is one case.
@@ -197,14 +205,15 @@ func Gen(t *rapid.T, tier string) any {
 
 // Kinds of generated operations: [0, kindStatic) DHCP messages, [kindStatic,
 // kindAdvance) static-lease operations, [kindAdvance, kindRestart) clock
-// advances, [kindRestart, kindSetconf) restarts, [kindSetconf, kindMax]
-// configuration changes.
+// advances, [kindRestart, kindSetconf) restarts, [kindSetconf, kindPar)
+// configuration changes, [kindPar, kindMax] concurrent phases.
 const (
 	kindStatic  = 66
 	kindAdvance = 84
 	kindRestart = 95
 	kindSetconf = 100
-	kindMax     = 104
+	kindPar     = 105
+	kindMax     = 113
 )
 
 var poolSizes = []int{2, 2, 3, 3, 3, 4, 5, 8, 20}
@@ -348,6 +357,8 @@ func genOps(t *rapid.T, sc *Scenario, k int) (ops []Op) {
 		}
 	case k < kindSetconf:
 		op = Op{K: "restart"}
+	case k >= kindPar:
+		op = genPar(t, sc)
 	default:
 		switch f := rapid.IntRange(0, 9).Draw(t, "c_flavour"); {
 		case f < 4:
@@ -486,6 +497,7 @@ type dhcpServer interface {
 	VerifV4HandlePacket(conn net.PacketConn, peer net.Addr, req *dhcpv4.DHCPv4) bool
 	VerifV4Table() *dhcpd.VerifV4Table
 	VerifDBPath() string
+	VerifV4CopyStateFrom(src any) bool
 }
 
 // capConn is the fake DHCP socket: it captures what the server sends.
@@ -562,6 +574,12 @@ type node struct {
 	nModified int
 	// undelivered is set while judging a message that reached nobody.
 	undelivered bool
+	// root is the case's directory (dir is swapped for a replica's while the
+	// operations of a concurrent phase are judged in their serial order), sub
+	// marks the events of those operations, nReplicas numbers the replicas.
+	root      string
+	sub       string
+	nReplicas int
 }
 
 // diskConf is the part of the DHCP configuration that home writes to and reads
@@ -601,7 +619,17 @@ func (n *node) onConfigModified() {
 
 // conf is the configuration a start of the process creates the server from.
 func (n *node) conf(register bool) *dhcpd.ServerConfig {
-	conf := &dhcpd.ServerConfig{
+	conf := n.confIn(n.dir)
+	if register {
+		conf.HTTPRegister = n.mux.Register
+		conf.ConfigModified = n.onConfigModified
+	}
+	return conf
+}
+
+// confIn is conf for a server living in dir, nothing registered.
+func (n *node) confIn(dir string) *dhcpd.ServerConfig {
+	return &dhcpd.ServerConfig{
 		ConfigModified:  func() {},
 		Enabled:         n.snap.Enabled,
 		InterfaceName:   n.snap.Iface,
@@ -615,14 +643,9 @@ func (n *node) conf(register bool) *dhcpd.ServerConfig {
 			ICMPTimeout:   n.snap.ICMPTime,
 			Options:       append([]string(nil), n.snap.Options...),
 		},
-		WorkDir: n.dir,
-		DataDir: n.dir,
+		WorkDir: dir,
+		DataDir: dir,
 	}
-	if register {
-		conf.HTTPRegister = n.mux.Register
-		conf.ConfigModified = n.onConfigModified
-	}
-	return conf
 }
 
 func (n *node) open() error {
@@ -676,14 +699,18 @@ func findMAC(ls []lease, mac string) (lease, bool) {
 
 // resolve turns an address reference of an op into an address.
 func (n *node) resolve(ref string, m int, tbl []lease) net.IP {
+	return resolveRef(ref, m, n.clients[m], tbl)
+}
+
+func resolveRef(ref string, m int, cl client, tbl []lease) net.IP {
 	var a netip.Addr
 	switch ref {
 	case "":
 		return nil
 	case "off":
-		a = n.clients[m].offered
+		a = cl.offered
 	case "ack":
-		a = n.clients[m].acked
+		a = cl.acked
 	case "cur":
 		if l, ok := findMAC(tbl, macOf(m).String()); ok {
 			a = l.IP
@@ -720,16 +747,24 @@ var msgTypes = map[string]dhcpv4.MessageType{
 // send builds the message of op, passes it over the wire format into the real
 // packet handler and returns the captured replies.
 func (n *node) send(op Op, tbl []lease) ([]reply, error) {
+	if op.Sid == "bad" {
+		n.c.Fault("client_wrong_server_id")
+	}
+	return sendTo(n.srv, op, n.opIdx, n.clients[op.M], tbl)
+}
+
+// sendTo is send for any server and any view of the client.
+func sendTo(srv dhcpServer, op Op, xid int, cl client, tbl []lease) ([]reply, error) {
 	mods := []dhcpv4.Modifier{
-		dhcpv4.WithTransactionID(dhcpv4.TransactionID{0, 0, byte(n.opIdx >> 8), byte(n.opIdx)}),
+		dhcpv4.WithTransactionID(dhcpv4.TransactionID{0, 0, byte(xid >> 8), byte(xid)}),
 		dhcpv4.WithHwAddr(macOf(op.M)),
 		dhcpv4.WithMessageType(msgTypes[op.K]),
 		dhcpv4.WithBroadcast(op.Bc),
 	}
-	if ip := n.resolve(op.Req, op.M, tbl); ip != nil {
+	if ip := resolveRef(op.Req, op.M, cl, tbl); ip != nil {
 		mods = append(mods, dhcpv4.WithOption(dhcpv4.OptRequestedIPAddress(ip)))
 	}
-	if ip := n.resolve(op.Ci, op.M, tbl); ip != nil {
+	if ip := resolveRef(op.Ci, op.M, cl, tbl); ip != nil {
 		mods = append(mods, dhcpv4.WithClientIP(ip))
 	}
 	switch op.Sid {
@@ -737,7 +772,6 @@ func (n *node) send(op Op, tbl []lease) ([]reply, error) {
 		mods = append(mods, dhcpv4.WithOption(dhcpv4.OptServerIdentifier(net.IP(selfIP.AsSlice()))))
 	case "bad":
 		mods = append(mods, dhcpv4.WithOption(dhcpv4.OptServerIdentifier(net.IP(otherSrvIP.AsSlice()))))
-		n.c.Fault("client_wrong_server_id")
 	}
 	if op.Host != "" {
 		mods = append(mods, dhcpv4.WithOption(dhcpv4.OptHostName(op.Host)))
@@ -755,7 +789,7 @@ func (n *node) send(op Op, tbl []lease) ([]reply, error) {
 	}
 	conn := &capConn{}
 	peer := &net.UDPAddr{IP: net.IPv4zero, Port: dhcpv4.ClientPort}
-	if !n.srv.VerifV4HandlePacket(conn, peer, wire) {
+	if !srv.VerifV4HandlePacket(conn, peer, wire) {
 		return nil, fmt.Errorf("harness: v4 server not configured")
 	}
 	var out []reply
@@ -783,29 +817,36 @@ var staticPaths = map[string]string{
 	"srm":  "/control/dhcp/remove_static_lease",
 }
 
-// static runs one static-lease operation through the real HTTP handler and
-// updates the reservation model from the handler's own answer.
-func (n *node) static(op Op, tbl []lease) (string, error) {
-	mac := macOf(op.M).String()
+// staticReq is the request of a static-lease operation: "cur" / "=cur" stand
+// for the address / hostname the table tbl holds for the client.
+func staticReq(op Op, tbl []lease) (mac, ip, host string, body []byte) {
+	mac = macOf(op.M).String()
 	if op.Mac != "" {
 		mac = op.Mac
 	}
 	cur, hasCur := findMAC(tbl, macOf(op.M).String())
-	ip := op.IP
+	ip = op.IP
 	if ip == "cur" {
 		ip = ""
 		if hasCur {
 			ip = cur.IP.String()
 		}
 	}
-	host := op.Host
+	host = op.Host
 	if host == "=cur" {
 		host = ""
 		if hasCur {
 			host = cur.Host
 		}
 	}
-	body, _ := json.Marshal(map[string]string{"mac": mac, "ip": ip, "hostname": host})
+	body, _ = json.Marshal(map[string]string{"mac": mac, "ip": ip, "hostname": host})
+	return mac, ip, host, body
+}
+
+// static runs one static-lease operation through the real HTTP handler and
+// updates the reservation model from the handler's own answer.
+func (n *node) static(op Op, tbl []lease) (string, error) {
+	mac, ip, host, body := staticReq(op, tbl)
 	code, resp, err := n.mux.Do(http.MethodPost, staticPaths[op.K], body)
 	if err != nil {
 		return "", apiErr(err)
@@ -1695,6 +1736,9 @@ func copyResv(m map[string]reservation) map[string]reservation {
 // ---- the run -----------------------------------------------------------------------
 
 func (n *node) step(i int, op Op) error {
+	if op.K == "par" {
+		return n.par(i, op)
+	}
 	n.opIdx, n.op, n.undelivered = i, op, false
 	c := n.c
 	before, _, err := n.tableOf(n.srv)
@@ -1831,6 +1875,19 @@ func (n *node) step(i int, op Op) error {
 				return n.report(kernel.Violationf("setconf-rejected-changed-table", "%s: the request was refused but the table changed from %v to %v", desc, sortedStrings(before), sortedStrings(cur)), "")
 			}
 		}
+	case "reset", "leases", "status", "hostbyip", "ipbyhost", "macbyip":
+		// Only generated inside a concurrent phase; here one of them is judged
+		// at its place in the serial order.
+		out := execSub(n.srv, n.mux, n.clients, op, i, n.enabled, before)
+		if out.err != nil {
+			return out.err
+		}
+		desc = fmt.Sprintf("%s -> %s", subDesc(op), out.ans)
+		if op.K == "reset" && out.code == http.StatusOK {
+			// The administrator wiped the lease table, reservations included.
+			n.resv = map[string]reservation{}
+			c.Probe("leases_reset")
+		}
 	default:
 		return fmt.Errorf("harness: unknown op %q", op.K)
 	}
@@ -1838,7 +1895,7 @@ func (n *node) step(i int, op Op) error {
 	if err != nil {
 		return err
 	}
-	c.Eventf("op %d t=%s %s | table %v", i, kernel.SimNow(), desc, sortedStrings(tbl))
+	c.Eventf("op %d%s t=%s %s | table %v", i, n.sub, kernel.SimNow(), desc, sortedStrings(tbl))
 	if n.tainted {
 		c.Probe("ops_after_taint")
 		return nil
@@ -1879,6 +1936,7 @@ func sortedAddrs(m map[netip.Addr]holder) []netip.Addr {
 
 // Run executes one scenario.
 func Run(t *testing.T, scAny any, c *kernel.Ctx) error {
+	sched.Init()
 	sc := scAny.(*Scenario)
 	if sc.Pool < 2 || sc.Macs < 1 || sc.Macs > 200 || sc.LeaseSec < 1 {
 		return fmt.Errorf("harness: bad scenario knobs")
@@ -1890,7 +1948,7 @@ func Run(t *testing.T, scAny any, c *kernel.Ctx) error {
 	defer os.RemoveAll(dir)
 	return kernel.Bubble(t, func() error {
 		time.Sleep(time.Duration(sc.StartMs) * time.Millisecond)
-		n := &node{dir: dir, sc: sc, c: c, clients: make([]client, sc.Macs), resv: map[string]reservation{}, seen: map[string]bool{}, held: map[netip.Addr]holder{}}
+		n := &node{dir: dir, root: dir, sc: sc, c: c, clients: make([]client, sc.Macs), resv: map[string]reservation{}, seen: map[string]bool{}, held: map[netip.Addr]holder{}}
 		n.lo, n.size, n.leaseSec, n.enabled = poolBase, sc.Pool, sc.LeaseSec, true
 		n.snap = diskConf{Enabled: true, Iface: "verif0", GW: gatewayIP, Mask: subnetMask, Start: poolAddr(0), End: poolAddr(sc.Pool - 1), LeaseDuration: uint32(sc.LeaseSec)}
 		if err := n.open(); err != nil {
@@ -1899,6 +1957,13 @@ func Run(t *testing.T, scAny any, c *kernel.Ctx) error {
 		for i, op := range sc.Ops {
 			if op.M < 0 || op.M >= sc.Macs {
 				return fmt.Errorf("harness: op %d: client index out of range", i)
+			}
+			for _, task := range op.Tasks {
+				for _, sub := range task {
+					if sub.M < 0 || sub.M >= sc.Macs {
+						return fmt.Errorf("harness: op %d: client index out of range", i)
+					}
+				}
 			}
 			if err := n.step(i, op); err != nil {
 				return err
@@ -1924,8 +1989,9 @@ var Prop = &kernel.Property{
 	Real:        []string{"internal/dhcpd: Create, v4Server packet handler (handle, discover/request/decline/release), static-lease and set_config HTTP handlers, WriteDiskConfig (a restart is created from what the server reported at its last ConfigModified), lease indexes and pool bitset, dbStore/dbLoad + leases.json (renameio) on tmpfs", "github.com/insomniacslk/dhcp/dhcpv4 wire format (requests and replies cross it)"},
 	Stub:        []string{"DHCP raw/UDP sockets (fake net.PacketConn capturing replies)", "interface probing of Start (server addresses injected through configureDNSIPAddrs; the Start that set_config attempts fails on the non-existent interface and its error answer is disregarded)", "ICMP conflict probe (ICMPTimeout=0)", "DHCP clients (simulated state machines)", "admin HTTP client (handlers called in-process)", "wall clock (synctest fake clock)", "DHCPv6 (disabled)"},
 	Assumptions: []string{"reservations are what the static-lease API itself confirmed with 200", "a lease is unexpired while its expiry is after now; at the exact expiry instant an address counts as taken for the offer-liveness clause only", "addresses merely offered (never acknowledged) do not count as leased for the offer-liveness clause", "expiry is compared at one-second resolution across disk and restart, and the last second of a client's lease is not judged (leases.json and the lease-time option carry whole seconds)", "a client holds an acknowledged address until its lease time runs out, it sends RELEASE/DECLINE, it is NAKed, or an administrator operation / restart removes the lease from the table (those removals are judged by I6/I7)", "while DHCP is switched off no message reaches the server", "a configuration is in force when the server announced the change (ConfigModified); what becomes of dynamic leases outside a newly configured pool is left open and not asserted (they must not stay in the table as dynamic leases)", "all-zero MAC (the implementation's conflict marker) and 8/20-byte hardware addresses are not generated", "after a listed finding that leaves the table persistently corrupt (same lease listed twice, I1/I2/I3 broken, two leases under one hostname, a reserved client answered another address) the rest of that case only looks for crashes; listed findings that heal with the next store or only concern a restart do not end the checking"},
-	FaultKinds:  []string{"clean_restart", "config_reload", "clock_jump_past_lease_time", "pool_exhausted", "client_wrong_server_id"},
+	FaultKinds:  []string{"clean_restart", "config_reload", "clock_jump_past_lease_time", "pool_exhausted", "client_wrong_server_id", "overlapped_operations"},
 	ProbeNames: []string{"offer", "ack", "nak", "silent", "dynamic_lease_acked", "static_lease_acked", "reply_to_reserved_client", "static_added", "static_added_outside_pool", "static_updated", "static_removed", "static_remove_hit_dynamic", "static_rejected",
 		"decline_reallocated", "release_removed_lease", "discover_new_client_free_address", "offer_recycled_entry", "expired_lease_in_table", "restart_with_leases", "shadow_restart_checked", "held_lease_revoked_by_admin_or_restart", "reservation_dropped_by_restart", "restart_from_stale_disk", "table_dup_seen", "table_invariant_broken_seen", "disk_differs_seen", "ops_after_taint",
-		"setconf_enabled", "setconf_disabled", "setconf_range_changed", "setconf_rejected", "setconf_start_stubbed", "setconf_with_leases", "message_while_disabled", "lease_outside_new_pool"},
+		"setconf_enabled", "setconf_disabled", "setconf_range_changed", "setconf_rejected", "setconf_start_stubbed", "setconf_with_leases", "message_while_disabled", "lease_outside_new_pool",
+		"sched_steps", "sched_switches", "par_interleaved", "par_serializable", "par_serial_orders_tried", "par_completion_order_not_serial_order", "par_neither_completion_nor_start_order", "leases_reset"},
 }
